@@ -17,19 +17,14 @@ Proof. exact boundaryb_is_char_boundary. Qed.
 Theorem C19_slice_is_byte_slice : forall text from to b, points_at text from to b ->
   from <= to /\ to <= blen text /\ boundary text from /\ boundary text to /\
   firstn (N.to_nat (to - from)) (skipn (N.to_nat from) (encode text)) = encode b.
-Proof.
-  exact (fun text from to b H =>
-    match points_at_facts text from to b H with
-    | conj a (conj b' (conj c d)) => conj a (conj b' (conj c (conj d (points_at_bytes text from to b H))))
-    end).
-Qed.
+Proof. exact slice_is_byte_slice. Qed.
 
 (* ---- tokens: every built-in tokenizer, every filter chain, every text ---- *)
 Theorem C19_token_offsets :
   forall (alnum : cp -> bool) (lower : cp -> list cp) (fold : cp -> option (list cp)) (stem : list cp -> list cp)
          (dict_find : list cp -> list (N * N)) (re_find : list cp -> option (N * N)),
   (forall s a b, re_find s = Some (a, b) -> exists m, points_at s a b m) ->
-  forall (T : tokenizer) (fs : list filter) (text : list cp) (out : list token),
+  forall (T : tokenizer) (fs : list tfilter) (text : list cp) (out : list token),
   blen text <= USIZE_MAX ->
   analyze alnum lower fold stem dict_find re_find T fs text = Some out ->
   Forall (span_ok text) out /\                   (* from <= to <= |text|, both on boundaries *)
@@ -116,20 +111,7 @@ Theorem C19_fragment_length :
   snippet_of score szero sadd spos scmp lower_str terms max text ts = Some sn ->
   f9_class text ts (sn_fragment sn) max = false ->
   N.of_nat (length (sn_fragment sn)) <= max.
-Proof.
-  intros score szero sadd spos scmp lower_str text ts terms max sn Hsp Hfs Hsn Hcls.
-  destruct (snippet_of_ok score szero sadd spos scmp lower_str text ts terms max Hsp Hfs) as (sn' & E & Hp).
-  rewrite Hsn in E. injection E as <-.
-  destruct Hp as [->|(start & stop & Hpt & Hlen & _)]; [cbn; lia|].
-  pose proof (chars_le_bytes (sn_fragment sn)) as Hc.
-  destruct Hpt as (a & c & Etext & -> & ->).
-  destruct Hlen as [Hle|(tk & Hin & E1 & E2 & Hgt)]; [lia|].
-  exfalso. unfold f9_class in Hcls. apply Bool.not_true_iff_false in Hcls. apply Hcls.
-  apply existsb_exists. exists tk. split; [exact Hin|]. apply andb_true_iff. split; [apply N.ltb_lt; exact Hgt|].
-  assert (Hs : slice_cp text (t_from tk) (t_to tk) = Some (sn_fragment sn)).
-  { apply slice_cp_spec. exists a, c. rewrite <- E1, <- E2. auto. }
-  rewrite Hs. apply cps_eqb_eq. reflexivity.
-Qed.
+Proof. exact fragment_length_unless_f9. Qed.
 
 (* non-overlapping analyzers: raw and collapsed highlights are sorted, disjoint, inside the
    fragment and on its boundaries; to_html does not panic *)
@@ -155,11 +137,7 @@ Theorem C19_snippet_ranges_monotone :
   Forall (fun r => boundary (sn_fragment sn) (fst r) /\ boundary (sn_fragment sn) (snd r)) (collapse (sn_hl sn)) /\
   (forall p, covered p (collapse (sn_hl sn)) <-> covered p (sn_hl sn)) /\
   to_html prefix postfix sn <> None.
-Proof.
-  intros score szero sadd spos scmp lower_str text ts terms max prefix postfix sn Hsp Hfs Hc Hsn.
-  apply (snippet_ranges_ok score szero sadd spos scmp lower_str text ts terms max prefix postfix sn Hsp Hfs); [|exact Hsn].
-  apply sorted_byb_spec. unfold f21_class in Hc. apply negb_false_iff in Hc. exact Hc.
-Qed.
+Proof. exact snippet_ranges_unless_f21. Qed.
 
 (* raw highlighted() ranges are disjoint unless the analyzer emits overlapping tokens (F10) *)
 Theorem C19_highlighted_disjoint :
@@ -167,11 +145,7 @@ Theorem C19_highlighted_disjoint :
   f10_class ts = false ->
   snippet_of score szero sadd spos scmp lower_str terms max text ts = Some sn ->
   ranges_disjoint 0 (sn_hl sn).
-Proof.
-  intros score szero sadd spos scmp lower_str text ts terms max sn Hc Hsn.
-  apply (raw_disjoint_from_search score szero sadd spos scmp lower_str text ts terms max sn); [|exact Hsn].
-  apply disjoint_fromb_spec. unfold f10_class in Hc. apply negb_false_iff in Hc. exact Hc.
-Qed.
+Proof. exact highlighted_disjoint_unless_f10. Qed.
 
 (* to_html = the fragment cut into (plain, highlighted) pieces, every piece escaped, tags only
    around the highlighted pieces; with the default tags, reading it back returns the fragment *)
